@@ -21,6 +21,7 @@
 package engine
 
 import (
+	"fmt"
 	"go/ast"
 	"go/token"
 	"reflect"
@@ -108,7 +109,23 @@ func (c *replacerCompiler) compile(v reflect.Value) Replacer {
 		return c.compilePosReplacer(v)
 	}
 
+	if dots, ok := v.Interface().(*pgo.Dots); ok {
+		// "..." is handled by the list and "for" replacers above. Anywhere
+		// else we have nothing to fill it in with, and it must not leak
+		// into the generated file.
+		return errorReplacer{
+			Err: fmt.Errorf(`%v: "..." is not supported here`, c.fset.Position(dots.Pos())),
+		}
+	}
+
 	return c.compileGeneric(v)
+}
+
+// errorReplacer fails replacement with a fixed error.
+type errorReplacer struct{ Err error }
+
+func (r errorReplacer) Replace(data.Data, Changelog, token.Pos) (reflect.Value, error) {
+	return reflect.Value{}, r.Err
 }
 
 // ZeroReplacer replaces with a zero value.
